@@ -281,6 +281,7 @@ fn main() {
     let mut unit_path = String::new();
     let mut variant = "conc".to_string();
     let mut out = String::new();
+    let mut vacuity = false;
     let mut i = 1;
     while i < args.len() {
         match args[i].as_str() {
@@ -289,6 +290,7 @@ fn main() {
             "--unit" => { unit_path = args[i + 1].clone(); i += 2; }
             "--variant" => { variant = args[i + 1].clone(); i += 2; }
             "--out" => { out = args[i + 1].clone(); i += 2; }
+            "--vacuity" => { vacuity = true; i += 1; }
             other => die(&format!("unknown argument {}", other)),
         }
     }
@@ -385,6 +387,7 @@ fn main() {
 
     // ---------------------------------------------------------------- emit
     let mut em = emit::Emitter::new(&u, &variant, &verif);
+    em.vacuity = vacuity;
     for (st, ss) in struct_items.iter() {
         em.add_struct(st, ss);
     }
@@ -438,6 +441,7 @@ fn main() {
             self_rename: None,
             backparam: backparam.clone(),
             loop_depth_raii: vec![],
+            cur_key: String::new(),
         };
 
         // ---- signature
